@@ -37,6 +37,9 @@ def month_boundaries():
 def gen(tier, rng):
     nm, nl, npar = {"quick": (1500, 300, 4000), "search": (5000, 1000, 15000), "thorough": (30000, 5000, 100000)}[tier]
     cases = mboxgen.mbox_cases(rng, nm) + mboxgen.list_cases(rng, nl) + mboxgen.parse_cases(rng, npar)
+    # the header map itself: set / remove / get with names that differ in letter case only
+    from tools import hdrgen
+    cases += hdrgen.hdrs_cases(rng, {"quick": 400, "search": 1500, "thorough": 8000}[tier])
     mb = month_boundaries()
     if tier == "quick":
         mb = mb[:: 37] + mb[-50:] + mb[:50]
@@ -94,4 +97,5 @@ def distribution(cases):
     return d
 
 
-FINDING_CLASSES = {}
+from tools.props import c02 as _c02
+FINDING_CLASSES = {"content-disposition-escaped-name-over-78": _c02._cdisp_escaped}
